@@ -11,10 +11,12 @@
       [description] (kinds 1, 2), sorted wildcard expansion [n; index*n], warm start time
       [0 | 1 tree], the PARSED FILE [tree], the observation [0 tree | 1 errorcode], and the
       observation after the harness's own signature-based defaults [0 tree | 1 errorcode | 2].
-    The checker requires: (kinds 1, 2) the model's renderer gives exactly the tree the parser
-    produced from the harness's file; [configure] of the model on the parsed tree equals the
-    observed dictionary, keys in the same order, or fails with the same exception class; and
-    [normalize] of it is the same dictionary (order of keys ignored there) as the harness's. *)
+    The checker requires: (kinds 1, 2) the model's renderer gives the tree the parser produced from
+    the harness's hand-written file (order of keys ignored: it has no meaning in a file);
+    [configure] of the model on the parsed tree equals the observed dictionary, KEYS IN THE SAME
+    ORDER (Python's insertion order), or fails with the same exception class; and [normalize] of it
+    is the same dictionary (order of keys ignored) as the harness's own, which takes module names,
+    class names and defaults from the real [init_module] and the real constructor signatures. *)
 From Coq Require Import ZArith List Bool String Ascii.
 From Ladim Require Import Model.Config Corr.Run.
 Import ListNotations.
